@@ -130,7 +130,10 @@ func c12Run(c *core.Case, o *core.Outcome, dist api.DistributionType) {
 	for si := 0; si < p.Sets && o.Verdict != core.Violated && budget > 0; si++ {
 		n := c12GenN(r, p.MaxN)
 		rem := time.Duration(0)
-		if r.IntN(12) == 0 {
+		if si == 0 && dist == api.RegularDistribution && (p.MaxN >= 1_000_000 || c.Rng("million").IntN(10) == 0) {
+			// more than a million sub-ticks per cycle (intervals of 28-47 hours)
+			n = 1_000_001 + r.IntN(700_000)
+		} else if r.IntN(12) == 0 {
 			// a single sub-tick per cycle: intervals strictly between 100 and 200 ms
 			n = 1
 			rem = time.Duration(1 + r.Int64N(int64(100*time.Millisecond)-1))
@@ -145,6 +148,9 @@ func c12Run(c *core.Case, o *core.Outcome, dist api.DistributionType) {
 		}
 		interval := time.Duration(n)*100*time.Millisecond + rem
 		cycles := 3 + r.IntN(4)
+		if n > 1_000_000 {
+			cycles = 2
+		}
 		rates := make([]int, cycles)
 		class := ""
 		nontrivial := false
